@@ -120,6 +120,15 @@ theorem stream_n_validations (c : Cfg) (outcome : Bytes → BodyOutcome) (r : Re
   have e := iterN_of_idem (fun x => (validateStream c outcome x).1) r hid n
   exact ⟨e, by rw [e]; exact validateStream_idem_verdict c outcome r data h H⟩
 
+/-- regression (repaired by 1f8c043): an empty requirement (`security: [{}]`) is satisfied without an authentication
+    function, before anything is read — the request is not touched; a non-empty one still fails without the function,
+    also before anything is read -/
+theorem regression_empty_requirement_needs_no_auth_func :
+    let r : Req := { body := some [1, 2], getBody := .none, contentLength := 2 }
+    secPhase false r [[]] = (r, true, []) ∧
+    secPhase false r [[{ declared := true, auth := ⟨true, true⟩ }]] = (r, false, []) ∧
+    secPhase false r [[{ declared := true, auth := ⟨true, true⟩ }], []] = (r, true, []) := by decide
+
 /-- A request without a body is not given one by the security phase. -/
 theorem sec_no_body_untouched (f : Bool) (r : Req) (qs : List (List Scheme)) (h : r.body = none) :
     (secPhase f r qs).1 = r := secPhase_nobody f r qs h
